@@ -579,7 +579,7 @@ void Context::resetRuntime(const Context& parent)
   {
     MemorySlot& e = _storage_pool[i];
     *e.symbol = *parent._storage_pool[i].symbol;
-    e.value = Value(*e.symbol);
+    e.value = std::move(Value(*e.symbol).to_lvalue(true));
   }
 }
 
